@@ -1,4 +1,5 @@
-//! ENVIRONMENT MODEL of the part of `tokio::sync::watch` used by driver/streams/settings.rs: the sender owns a cell
+//! ENVIRONMENT MODELS of the parts of tokio the sliced driver code names.
+//! `sync::watch` (driver/streams/settings.rs): the sender owns a cell
 //! holding the last value (what `Sender::borrow` / `send_replace` observe). Receivers are NOT modelled (no wake-ups,
 //! no scheduling): `RemoteSettingsWatcher` is outside every claim. No reference counting, no allocation.
 pub mod sync {
@@ -41,4 +42,295 @@ pub mod sync {
             }
         }
     }
+
+    /// MODEL of `tokio::sync::Mutex`: `lock()` resolves when no other task holds the lock (flag set by the harness);
+    /// a guard derefs to the protected value. No wait queue, no fairness: whether the lock is free at a poll is the
+    /// harness's choice. (Built on RefCell: a second guard while one is alive would panic - the sliced code never
+    /// does that.)
+    pub struct Mutex<T> {
+        pub held_elsewhere: std::cell::Cell<bool>,
+        value: std::cell::RefCell<T>,
+    }
+    pub struct MutexGuard<'a, T> {
+        g: std::cell::RefMut<'a, T>,
+    }
+    pub struct LockFut<'a, T> {
+        m: &'a Mutex<T>,
+    }
+    impl<T> Mutex<T> {
+        pub fn new(value: T) -> Self {
+            Mutex { held_elsewhere: std::cell::Cell::new(false), value: std::cell::RefCell::new(value) }
+        }
+        pub fn lock(&self) -> LockFut<'_, T> {
+            LockFut { m: self }
+        }
+        /// harness access to the protected value while no guard exists
+        pub fn model_peek(&self) -> std::cell::Ref<'_, T> {
+            self.value.borrow()
+        }
+    }
+    impl<'a, T> std::future::Future for LockFut<'a, T> {
+        type Output = MutexGuard<'a, T>;
+        fn poll(self: std::pin::Pin<&mut Self>, _cx: &mut std::task::Context<'_>) -> std::task::Poll<Self::Output> {
+            if self.m.held_elsewhere.get() {
+                std::task::Poll::Pending
+            } else {
+                std::task::Poll::Ready(MutexGuard { g: self.m.value.borrow_mut() })
+            }
+        }
+    }
+    impl<T> std::ops::Deref for MutexGuard<'_, T> {
+        type Target = T;
+        fn deref(&self) -> &T {
+            &self.g
+        }
+    }
+    impl<T> std::ops::DerefMut for MutexGuard<'_, T> {
+        fn deref_mut(&mut self) -> &mut T {
+            &mut self.g
+        }
+    }
+
+    /// MODEL of the bounded `tokio::sync::mpsc` channel as the driver uses it. The sending half is a counter
+    /// automaton (free slots / reserved permits / sent values / closed) owned by the harness; the receiving half is a
+    /// separate scripted queue of up to three values. The two halves are NOT connected: what the worker sends and what
+    /// `Driver::accept_*` receives are decided by different harnesses.
+    pub mod mpsc {
+        use std::cell::Cell;
+        use std::future::Future;
+        use std::marker::PhantomData;
+        use std::pin::Pin;
+        use std::task::{Context, Poll};
+
+        pub mod error {
+            #[derive(Debug)]
+            pub struct SendError<T>(pub T);
+        }
+
+        pub struct ChanState {
+            pub free: Cell<usize>,
+            pub reserved: Cell<usize>,
+            pub sent: Cell<usize>,
+            pub closed: Cell<bool>,
+        }
+        impl ChanState {
+            pub fn new(free: usize, closed: bool) -> Self {
+                ChanState { free: Cell::new(free), reserved: Cell::new(0), sent: Cell::new(0), closed: Cell::new(closed) }
+            }
+        }
+
+        pub struct Sender<T> {
+            st: *const ChanState,
+            _p: PhantomData<T>,
+        }
+        impl<T> Clone for Sender<T> {
+            fn clone(&self) -> Self {
+                Sender { st: self.st, _p: PhantomData }
+            }
+        }
+        impl<T> Sender<T> {
+            pub fn model(st: &ChanState) -> Self {
+                Sender { st, _p: PhantomData }
+            }
+            fn st(&self) -> &ChanState {
+                unsafe { &*self.st }
+            }
+            pub fn capacity(&self) -> usize {
+                self.st().free.get()
+            }
+            pub fn reserve_owned(self) -> ReserveOwned<T> {
+                ReserveOwned { tx: Some(self) }
+            }
+            pub fn reserve(&self) -> Reserve<'_, T> {
+                Reserve { tx: self }
+            }
+        }
+
+        fn take_slot(st: &ChanState) -> Option<Result<(), ()>> {
+            if st.closed.get() {
+                Some(Err(()))
+            } else if st.free.get() > 0 {
+                st.free.set(st.free.get() - 1);
+                st.reserved.set(st.reserved.get() + 1);
+                Some(Ok(()))
+            } else {
+                None
+            }
+        }
+
+        pub struct ReserveOwned<T> {
+            tx: Option<Sender<T>>,
+        }
+        impl<T> Unpin for ReserveOwned<T> {}
+        impl<T> Future for ReserveOwned<T> {
+            type Output = Result<OwnedPermit<T>, error::SendError<()>>;
+            fn poll(mut self: Pin<&mut Self>, _cx: &mut Context<'_>) -> Poll<Self::Output> {
+                let st = self.tx.as_ref().expect("polled after completion").st;
+                match take_slot(unsafe { &*st }) {
+                    None => Poll::Pending,
+                    Some(Err(())) => Poll::Ready(Err(error::SendError(()))),
+                    Some(Ok(())) => {
+                        self.tx = None;
+                        Poll::Ready(Ok(OwnedPermit { st, live: true, _p: PhantomData }))
+                    }
+                }
+            }
+        }
+        pub struct OwnedPermit<T> {
+            st: *const ChanState,
+            live: bool,
+            _p: PhantomData<T>,
+        }
+        impl<T> OwnedPermit<T> {
+            pub fn send(mut self, value: T) -> Sender<T> {
+                let st = unsafe { &*self.st };
+                st.reserved.set(st.reserved.get() - 1);
+                st.sent.set(st.sent.get() + 1);
+                self.live = false;
+                std::mem::forget(value);
+                Sender { st: self.st, _p: PhantomData }
+            }
+        }
+        impl<T> Drop for OwnedPermit<T> {
+            fn drop(&mut self) {
+                if self.live {
+                    let st = unsafe { &*self.st };
+                    st.reserved.set(st.reserved.get() - 1);
+                    st.free.set(st.free.get() + 1);
+                }
+            }
+        }
+
+        pub struct Reserve<'a, T> {
+            tx: &'a Sender<T>,
+        }
+        impl<'a, T> Future for Reserve<'a, T> {
+            type Output = Result<Permit<'a, T>, error::SendError<()>>;
+            fn poll(self: Pin<&mut Self>, _cx: &mut Context<'_>) -> Poll<Self::Output> {
+                match take_slot(self.tx.st()) {
+                    None => Poll::Pending,
+                    Some(Err(())) => Poll::Ready(Err(error::SendError(()))),
+                    Some(Ok(())) => Poll::Ready(Ok(Permit { tx: self.tx, live: true })),
+                }
+            }
+        }
+        pub struct Permit<'a, T> {
+            tx: &'a Sender<T>,
+            live: bool,
+        }
+        impl<T> Permit<'_, T> {
+            pub fn send(mut self, value: T) {
+                let st = self.tx.st();
+                st.reserved.set(st.reserved.get() - 1);
+                st.sent.set(st.sent.get() + 1);
+                self.live = false;
+                std::mem::forget(value);
+            }
+        }
+        impl<T> Drop for Permit<'_, T> {
+            fn drop(&mut self) {
+                if self.live {
+                    let st = self.tx.st();
+                    st.reserved.set(st.reserved.get() - 1);
+                    st.free.set(st.free.get() + 1);
+                }
+            }
+        }
+
+        /// receiving half: a scripted queue of three values of which the first `visible` have arrived (the harness
+        /// raises it between polls through the shared `RecvCtl`); `closed` = all senders dropped, nothing more arrives.
+        pub struct RecvCtl {
+            pub visible: Cell<usize>,
+            pub closed: Cell<bool>,
+            pub received: Cell<usize>,
+        }
+        impl RecvCtl {
+            pub fn new(visible: usize, closed: bool) -> Self {
+                RecvCtl { visible: Cell::new(visible), closed: Cell::new(closed), received: Cell::new(0) }
+            }
+        }
+        pub struct Receiver<T> {
+            items: [Option<T>; 3],
+            ctl: *const RecvCtl,
+        }
+        impl<T> Receiver<T> {
+            pub fn model(items: [Option<T>; 3], ctl: &RecvCtl) -> Self {
+                Receiver { items, ctl }
+            }
+            pub fn recv(&mut self) -> Recv<'_, T> {
+                Recv { rx: self }
+            }
+        }
+        pub struct Recv<'a, T> {
+            rx: &'a mut Receiver<T>,
+        }
+        impl<T> Future for Recv<'_, T> {
+            type Output = Option<T>;
+            fn poll(self: Pin<&mut Self>, _cx: &mut Context<'_>) -> Poll<Self::Output> {
+                let rx = &mut *self.get_mut().rx;
+                let ctl = unsafe { &*rx.ctl };
+                let head = ctl.received.get();
+                if head < 3 && head < ctl.visible.get() {
+                    let v = match head {
+                        0 => rx.items[0].take(),
+                        1 => rx.items[1].take(),
+                        _ => rx.items[2].take(),
+                    };
+                    ctl.received.set(head + 1);
+                    Poll::Ready(v)
+                } else if ctl.closed.get() {
+                    Poll::Ready(None)
+                } else {
+                    Poll::Pending
+                }
+            }
+        }
+    }
+}
+
+/// MODEL of `tokio::spawn`: there is no scheduler. Counts the calls. With `model_run_tasks(true)` the task is run
+/// eagerly inside `spawn`: polled until it completes, at most MAX_TASK_POLLS times (one legal schedule - the task
+/// shares nothing with its spawner but the channel counters); otherwise it is leaked un-polled (it keeps what it
+/// owns). No allocation, no dynamic dispatch.
+pub mod task {
+    pub struct JoinHandle;
+}
+pub const MAX_TASK_POLLS: usize = 3;
+static mut RUN_TASKS: bool = false;
+static mut SPAWNED: usize = 0;
+static mut COMPLETED: usize = 0;
+
+pub fn spawn<F>(future: F) -> task::JoinHandle
+where
+    F: std::future::Future<Output = ()>,
+{
+    unsafe {
+        SPAWNED += 1;
+        if !RUN_TASKS {
+            std::mem::forget(future);
+            return task::JoinHandle;
+        }
+    }
+    let mut future = std::pin::pin!(future);
+    let mut cx = std::task::Context::from_waker(std::task::Waker::noop());
+    let mut i = 0;
+    while i < MAX_TASK_POLLS {
+        if future.as_mut().poll(&mut cx).is_ready() {
+            unsafe {
+                COMPLETED += 1;
+            }
+            break;
+        }
+        i += 1;
+    }
+    task::JoinHandle
+}
+pub fn model_run_tasks(on: bool) {
+    unsafe { RUN_TASKS = on }
+}
+pub fn model_spawned() -> usize {
+    unsafe { SPAWNED }
+}
+pub fn model_completed() -> usize {
+    unsafe { COMPLETED }
 }
